@@ -365,6 +365,36 @@ func (x *c15) array(a []gen.V, kind int, idx int) {
 				map[string]any{"source": src, "a": desc, "expected": want, "observed": res.Brief()})
 		}
 	}
+	// the caller edits its own slice in place between two renders: the second render must see the new contents
+	if (kind == 0 || kind == 1) && len(a) >= 2 {
+		rv := reflect.ValueOf(bind)
+		x0, x1 := reflect.ValueOf(rv.Index(0).Interface()), reflect.ValueOf(rv.Index(len(a)-1).Interface())
+		if x0.IsValid() && x1.IsValid() {
+			rv.Index(0).Set(x1)
+			rv.Index(len(a) - 1).Set(x0)
+			na := append([]gen.V{}, a...)
+			na[0], na[len(a)-1] = a[len(a)-1], a[0]
+			var jp []string
+			for _, e := range na {
+				if e.K != gen.KNil {
+					p, _ := gen.Print(e)
+					jp = append(jp, p)
+				}
+			}
+			f0, _ := gen.Print(na[0])
+			src2 := "{{ a | first }}|{{ a | join: '-' }}|{{ a | reverse | last }}|{{ a[0] }}|{{ a | sort | size }}"
+			want2 := fmt.Sprintf("%s|%s|%s|%s|%d", f0, strings.Join(jp, "-"), f0, f0, len(na))
+			if t := x.tpl(src2); t != nil {
+				res := core.Render(t, map[string]any{"a": bind})
+				c.Eval(1)
+				c.Obs("in_place_edit_sequences", 1)
+				if !res.OK() || res.Out != want2 {
+					c.Violate("stale-after-in-place-edit|rep"+fmt.Sprint(kind), "after the caller edited its slice in place, array filters still computed on the old contents",
+						map[string]any{"source": src2, "a_before": desc, "a_after": gen.Describe(bind), "expected": want2, "observed": res.Brief()})
+				}
+			}
+		}
+	}
 	if idx%997 == 5 {
 		c.Sample(map[string]any{"array": desc, "filters": "sort sort_natural reverse uniq compact concat first last size join (+ receiver re-rendered, Go binding compared)"})
 	}
@@ -575,6 +605,7 @@ func runC15(c *core.Ctx) {
 		{gen.Float(1.5), gen.Float(2), gen.Float(2.5), gen.Nil},
 		{gen.Str("a"), gen.Str("B"), gen.Str("c"), gen.Nil},
 		{gen.Int(1), gen.Float(2.5), gen.Str("a"), gen.Nil},
+		{gen.Float(1), gen.Int(1), gen.Int(2), gen.Float(2)}, // equal numbers of different kinds are one element for uniq
 	}
 	idx := 0
 	total := gen.CountStrings(4, 4)
